@@ -43,7 +43,7 @@ def run(ctx):
     rng = ctx.rng
     quick = ctx.tier == "quick"
     # ------------------------------------------------------------ decoder
-    for it in range(1200 if quick else 12000):
+    for it in range(1200 if quick else 50000):
         if it % 50 == 0:
             sf.set_semantic_constraints(rng.choice(["default", "hypervalent", "octet_rule", tablegen.random_table(rng)]))
             table = sf.get_semantic_constraints()
@@ -140,7 +140,7 @@ def run(ctx):
     # ------------------------------------------------------------ encoder
     sf.set_semantic_constraints({"?": 12})
     lax = sf.get_semantic_constraints()
-    for it in range(700 if quick else 8000):
+    for it in range(700 if quick else 30000):
         if rng.random() < 0.15:
             m, _, _ = standard_system(rng, nrings=rng.choice([1, 2]))
         else:
